@@ -282,9 +282,10 @@ eval(struct expr *expr)
 				binary(expr, expr->op, l, r);
 			} else if (l->kind == EXPRBINARY && l->type->kind == TYPEPOINTER && l->op == TADD && l->u.binary.r->kind == EXPRCONST) {
 				/* (P + C1) ± C2  ->  P + (C1 ± C2) */
-				binary(expr->u.binary.r, expr->op, l->u.binary.r, r);
+				binary(r, expr->op, l->u.binary.r, r);
 				expr->op = TADD;
 				expr->u.binary.l = l->u.binary.l;
+				expr->u.binary.r = r;
 			} else if (expr->op == TSUB && l->kind == EXPRUNARY && l->op == TBAND) {
 				/* P - C  ->  P + -C */
 				r->u.constant.u = -r->u.constant.u;
